@@ -14,9 +14,11 @@ EXPLANATION = (
     "parse_inner: check_nesting_depth dominates the pest parse call (bounded recursion depth) and the loop expansion "
     "precedes both; expansion is bounded: expand_one_pass tests the range against MAX_LOOP_ITERATIONS on the path to the "
     "copy loop and expand_declaration_loops iterates at most MAX_EXPANSION_PASSES times. Panicking arithmetic sites inside "
-    "the parser crate are listed in the evidence as contained (they become Err)."
+    "the parser crate are listed in the evidence as contained (they become Err). (c) the depth pre-check skips string "
+    "literals the way the grammar ends them: a backslash consumes the next byte, and the closing quote is never decided by "
+    "looking at the previous byte."
 )
-DECIDED = ["a panic in parsing is converted into an error", "recursion depth and expansion size are bounded before the recursive-descent parse"]
+DECIDED = ["a panic in parsing is converted into an error", "recursion depth and expansion size are bounded before the recursive-descent parse", "the depth pre-check's string skipping handles escape pairs"]
 NOT_DECIDED = ["error positions lying inside the original (pre-processed vs original) input", "time bound of the PEG parser within the nesting limit"]
 
 P = "varpulis_parser::"
@@ -120,6 +122,52 @@ def run_order(ctx):
     ctx.sample({"contained_arith_sites": n})
 
 
+def run_scanner(ctx):
+    """the nesting pre-check only bounds what it can see: brackets inside string literals are skipped, so the scanner must
+    find the END of a literal exactly as the grammar does — a backslash escapes the NEXT byte (skip two), and the closing
+    quote is not decided by looking at the previous byte (`"C:\\\\"` ends at its last quote; a look-behind scanner takes it for
+    an escaped quote, stays in string mode and never counts the brackets that follow)"""
+    from vpr import hirq as H
+    fn = P + "pest_parser::check_nesting_depth"
+    h = ctx.need_hir(fn, rule="bounds")
+    BSL, QUO = ("92",), ("34",)  # byte literals are dumped by value: backslash, double quote
+
+    def is_lit(e, names):
+        e = H.strip(e)
+        return e is not None and e.get("k") == "lit" and str(e["v"].get("v")) in names
+
+    # loops nested in an `if <byte> == '"'`
+    str_loops = []
+    for x in H.walk(h["body"]):
+        if x.get("k") == "if":
+            c = H.strip(x["cond"])
+            if c.get("k") == "bin" and c["op"] == "Eq" and (is_lit(c["l"], QUO) or is_lit(c["r"], QUO)):
+                str_loops += [y for y in H.walk(x["then"]) if y.get("k") == "loop"]
+    if not str_loops:
+        ctx.anchor_lost("bounds", "check_nesting_depth: no loop skipping a double-quoted string found (quote literal %s)" % (QUO,))
+        return
+    lp = str_loops[0]
+    pair = False
+    lookbehind = None
+    for x in H.walk(lp["body"]):
+        if x.get("k") == "if":
+            c = H.strip(x["cond"])
+            if c.get("k") == "bin" and c["op"] == "Eq" and (is_lit(c["l"], BSL) or is_lit(c["r"], BSL)):
+                if any(y.get("k") == "assign" and y["op"] == "Add" and H.show(y["r"]) == "2" for y in H.walk(x["then"])):
+                    pair = True
+        if x.get("k") == "index":
+            i_ = H.strip(x["i"])
+            if i_.get("k") == "bin" and i_["op"] == "Sub":
+                lookbehind = x
+    if lookbehind is not None:
+        ctx.violation("bounds", "string-escape-pair", "the string skipper of check_nesting_depth decides whether a quote is escaped by looking at the previous byte (`%s`): a literal that ends in an escaped backslash is never closed, the brackets after it are invisible to the depth limit and reach the recursive-descent parser unbounded" % H.show(lookbehind)[:30], site=lookbehind["sp"])
+    elif pair:
+        ctx.ok("bounds", "string-escape-pair", "a backslash inside a literal skips the escaped byte with it", site=lp["sp"])
+    else:
+        ctx.violation("bounds", "string-escape-pair", "the string skipper of check_nesting_depth does not skip the byte after a backslash: an escaped quote ends the literal early (or never), and the depth limit counts / misses brackets that are inside / outside literals", site=lp["sp"])
+
+
 def run(ctx):
+    ctx.guard("bounds", lambda: run_scanner(ctx))
     ctx.guard("containment", lambda: run_containment(ctx))
     ctx.guard("bounds", lambda: run_order(ctx))
